@@ -119,6 +119,10 @@ def scn(params):
         rl = relay.XformRelay(scen.RELAY_IP, (scen.SERVER_IP, 53), random.Random(rng.getrandbits(32)), tuple(m["qcfg"]), tuple(m["acfg"]),
                               [TNUM[t] for t in m["allowed"]], m["limit"], m["edns0"], refuse_mode=m["refuse"])
         k.add_actor(scen.RELAY_IP, rl)
+        if params.get("pred"):
+            # somebody else used the server (directly, with non-default codecs) and vanished more than a minute ago
+            tunnelscn.predecessor(sim, random.Random(params["rseed"] ^ 0x5EED))
+            out["stats"]["with_predecessor"] = 1
         opts = ["-r"]
         forced = params.get("forced")
         judged = True
@@ -264,7 +268,7 @@ def run(ctx):
             else:
                 forced = ["-T", rng.choice(ORDER), "-O", rng.choice(["base32", "base64", "base64u", "base128"])]
         plist.append({"idx": i, "seed": ctx.seed * 100000 + i, "rseed": rng.getrandbits(32), "member": member, "forced": forced,
-                      "lazy0": rng.random() < 0.15})
+                      "lazy0": rng.random() < 0.15, "pred": rng.random() < 0.3})
     if ctx.replay:
         plist = [ctx.replay["witness"]["params"]]
     res.min_evaluations = 0 if ctx.replay else n // 2
